@@ -198,6 +198,20 @@ def run(pid, tier, seed, replay, mode):
                 rep.violation(dict(kind="inference-raised-on-a-valid-circuit", circuit=tab.brief(), row=bad_row,
                                    error=f"{type(e).__name__}: {e}"), True)
             continue
+        # batch composition must not matter: a sample of rows evaluated one at a time gives the batch's values
+        for j in rs.choice(len(X), size=min(len(X), 6), replace=False):
+            try:
+                l1, ll1, e1 = impl_eval(root, X[j:j + 1])
+            except Exception as e:
+                l1 = e1 = np.array([np.nan]); ll1 = np.array([np.nan])
+            okb = (np.isclose(l1[0], L[j], rtol=1e-5, atol=1e-12, equal_nan=True) and np.isclose(e1[0], E[j], rtol=1e-5, atol=1e-12, equal_nan=True))
+            dist["single_row_evaluations"] = dist.get("single_row_evaluations", 0) + 1
+            if not okb and dist.get("batch_viol", 0) < 3:
+                dist["batch_viol"] = dist.get("batch_viol", 0) + 1
+                rep.violation(dict(kind="value-of-a-row-depends-on-the-batch-it-is-evaluated-in", circuit=tab.brief(),
+                                   row=[None if np.isnan(t) else float(t) for t in X[j]],
+                                   in_batch=dict(likelihood=float(L[j]), exp_loglik=float(E[j])),
+                                   alone=dict(likelihood=float(l1[0]), exp_loglik=float(e1[0]))), True)
         cases.append(dict(root=root, tab=tab, dom=dom, width=width, rows=rows, L=L, LL=LL, E=E, exh=exh, points=points))
         d = tab.describe()
         for k, v in d["kinds"].items():
